@@ -131,6 +131,18 @@ pub fn check_views(l: &mut Local, s: &[u8], wellformed: bool, must_accept_pt: Op
         scalar!(l, "App", s, "ssrc", a.ssrc(), rd32(s, 4));
         scalar!(l, "App", s, "subtype", a.subtype(), c);
         scalar!(l, "App", s, "name", u32::from_be_bytes(a.name()), rd32(s, 8));
+        {
+            // the string accessor is the name field up to its first zero byte
+            let raw: Vec<u8> = s[8..12].iter().copied().take_while(|&b| b != 0).collect();
+            let want = String::from_utf8(raw).ok();
+            l.transitions += 1;
+            if a.get_name_string().ok() != want {
+                l.violation("accessor-wrong:App:get_name_string", || hex_short(s), || format!("get_name_string() = {:?}, the name field reads {:?}", a.get_name_string(), want));
+            }
+            if a.header_data() != [s[0], s[1], s[2], s[3]] {
+                l.violation("accessor-wrong:App:header_data", || hex_short(s), || format!("{:x?}", a.header_data()));
+            }
+        }
         scalar!(l, "App", s, "padding", a.padding().map(|p| p as u64 + 1).unwrap_or(0), if h.p { padn as u64 + 1 } else { 0 });
         l.transitions += 1;
         let d = a.data();
@@ -164,6 +176,18 @@ pub fn check_views(l: &mut Local, s: &[u8], wellformed: bool, must_accept_pt: Op
         }
         l.transitions += 1;
         let reason = b.reason();
+        {
+            // the string accessor is the byte accessor, decoded
+            let want = reason.map(|r| String::from_utf8(r.to_vec()).ok());
+            l.transitions += 1;
+            let got = b.get_reason_string().map(|r| r.ok());
+            if got != want {
+                l.violation("accessor-wrong:Bye:get_reason_string", || hex_short(s), || format!("get_reason_string() = {:?} while reason() = {:x?}", got, reason));
+            }
+            if b.header_data() != [s[0], s[1], s[2], s[3]] {
+                l.violation("accessor-wrong:Bye:header_data", || hex_short(s), || format!("{:x?}", b.header_data()));
+            }
+        }
         if let Some(rs) = reason {
             if let Err(m) = sub_slice_offset(s, rs) {
                 l.violation("slice-outside-input:Bye:reason", || hex_short(s), || m.clone());
